@@ -17,7 +17,7 @@ CFG = {
     "timeout": {"quick": 600, "thorough": 7200},
     "trusted_base": COMMON_TRUST + [
         "modelled, not verified: quick-xml 0.37 serializer/deserializer (field -> attribute/element mapping, text trimming, xs:list splitting, escaping), serde derive, plist::Dictionary (IndexMap insert semantics)",
-        "codec parameter (hypothesis CodecLaws of the theorems; satisfiable: codec_laws_satisfiable; the integer and base64 parts are proved for the Lean implementations the driver runs, the float Display and RFC 3339 date parts remain hypotheses): f32/f64/i64/u64 Display and FromStr round trip for non-NaN values, base64 STANDARD, plist::Date RFC 3339 formatting; the driver instantiates it per line from Rust's own to_string/to_xml_format output printed by the harness and checks the assumed laws on every such string (tag codec-law-broken)",
+        "codec parameter (hypothesis CodecLaws of the theorems; satisfiable: codec_laws_satisfiable; the integer and base64 parts are proved for the Lean implementations the driver runs; the date part is a real RFC 3339 implementation in Lean, proved a round trip under the single named hypothesis CalendarInverse (days_from_civil . civil_from_days = id on years 0000-9999) and compared with plist::Date::to_xml_format/from_xml_format on every date of every run (tag date-impl-differs); the float Display part remains a hypothesis): f32/f64/i64/u64 Display and FromStr round trip for non-NaN values, base64 STANDARD, plist::Date RFC 3339 formatting; the driver instantiates it per line from Rust's own to_string/to_xml_format output printed by the harness and checks the assumed laws on every such string (tag codec-law-broken)",
         "tools/extract_ds_consts.py (regex translator of designspace.rs, serde_xml_plist.rs and the vendored quick-xml 0.37 / plist 1.x / time 0.3 sources into lean/Norad/Generated/DsConsts.lean; trusted in one direction only: a wrong extraction can make a source_* theorem fail or fall back to tools/pinned/DsConsts.lean, it cannot make a false theorem check)",
         "python3 xml.etree (expat) as the independent XML reader; harness/src/c18_xmltree.py turns its tree into protocol tokens",
         "Spec.conformView (attribute-value and line-end normalisation of a conforming XML processor) predicts what xml.etree sees; ds_spec_reader_finds_values is stated over it",
